@@ -458,13 +458,7 @@ func (context *RunContext) Load() error {
 	}
 
 	if !isExist {
-		err = context.createFile()
-		if err != nil {
-			return err
-		} else {
-			verifCrashPoint("ctx.created")
-			return context.Flush()
-		}
+		return context.Flush()
 	} else {
 		err := context.load()
 		if err != nil {
@@ -547,7 +541,14 @@ func (context *RunContext) encodeBody() ([]byte, error) {
 }
 
 func (context *RunContext) flush(headBuf, bodyBuf []byte) error {
-	file, err := os.OpenFile(context.Path, os.O_WRONLY, os.ModePerm)
+	if err := context.flushTo(context.Path+".new", headBuf, bodyBuf); err != nil {
+		return err
+	}
+	return os.Rename(context.Path+".new", context.Path)
+}
+
+func (context *RunContext) flushTo(path string, headBuf, bodyBuf []byte) error {
+	file, err := os.OpenFile(path, os.O_WRONLY|os.O_CREATE|os.O_TRUNC, 0666)
 	defer file.Close()
 	if err != nil {
 		return err
